@@ -568,14 +568,17 @@ def _run_boh(H, task):
     vis = [S(z3.Real('vis%d' % i)) for i in range(n)]
     lms = [S(z3.Real('lm%d' % i)) for i in range(n)]
     wt = S(z3.Real('lm_weight'))
+    wt2 = S(z3.Real('lm_weight_2'))
     K = 'C16:boh:'
     has_lm = [lm == 'all' or (lm == 'mixed' and i % 2 == 0) for i in range(n)]
 
     def case(m_, **kw):
         c = {'mode': 'boh', 'vis': mv(m_, vis), 'lm': [mv(m_, lms[i]) if has_lm[i] else None for i in range(n)],
-             'lm_weight': mv(m_, wt)}
+             'lm_weight': mv(m_, wt), 'lm_weight_2': mv(m_, wt2)}
         c.update(kw)
         return c
+
+    state = {}
 
     def body():
         bag = bohm.BagOfHypotheses(lm_weight=wt)
@@ -586,6 +589,10 @@ def _run_boh(H, task):
         conf = bag.confidence()
         tcs = [bag.transcript_confidence('t%d' % i) for i in range(n)]
         missing = bag.transcript_confidence('not there')
+        # the same bag queried again under another LM weight (a weight sweep over one n-best list)
+        bag.lm_weight = wt2
+        state['post2'] = bag.posteriors()
+        state['conf2'] = bag.confidence()
         return tot, post, conf, tcs, missing
 
     for p, res, exc in H.explore(body):
@@ -611,6 +618,11 @@ def _run_boh(H, task):
                 'transcript_confidence is not the posterior of that transcript', lambda m_: case(m_))
         if not (isinstance(missing, float) and missing == 0.0):
             H.fail(K + 'missing', 'confidence of an absent transcript is not 0', lambda m_: case(m_))
+        ps2 = [_pval(x) for x in state['post2']]
+        ce2 = core.lift(state['conf2'])
+        H.claim(z3.And(*[q > 0 for q in ps2] + [sum(ps2) == 1, ce2 > 0, ce2 <= 1]), K + 'posteriors-sum-reweighted',
+                'after the LM weight of the bag was changed its posteriors no longer sum to 1 / its confidence leaves (0, 1]',
+                lambda m_: case(m_, got=[mv(m_, S(q)) for q in ps2]))
         H.witness(lambda m_: case(m_, expect={'conf': mv(m_, conf)}))
     return H.result()
 
